@@ -59,7 +59,7 @@ def gen(prop, stream, tier, avoid):
             spec["trim"] = _gen_trim(rng)
         objs.append(spec)
     use_cont = kn.chance(0.6)
-    nops = kn.pick([3, 4, 5, 6, 8, 10, 14, 20])
+    nops = kn.pick([3, 4, 5, 6, 8, 10, 14, 20] + ([30, 40] if tier == "thorough" else []))
     W = [("sample", 3), ("tessellate", 3), ("read", 4), ("edit", 1.5), ("quad", 0.7), ("export", 3), ("bad_tessellate", 0.5)]
     if use_cont:
         W += [("cadd", 2.5), ("csample", 1), ("ctess", 2.5), ("cread", 2.5)]
